@@ -12,7 +12,7 @@ Inductive obs_out :=
 | XBad.                                   (* undecodable observation: never matches *)
 
 Record estep := {
-  s_op : op;
+  s_op : xop;                             (* plain operation, or one transaction with a whole call tree *)
   s_out : obs_out;
   s_check : bool;                         (* state observed after this step (false inside a multi-tx block) *)
   s_dbal : list (Z * Z * Z);              (* (address, denom, new balance) for every balance that changed *)
@@ -98,7 +98,7 @@ Fixpoint first_bad (c : ecase) (e : env) (s : state) (t : otab) (i : nat) (l : l
   match l with
   | [] => None
   | x :: r =>
-      let '(s', o) := step e s (s_op x) in
+      let '(s', o) := xstep e s (s_op x) in
       let t' := {| o_bal := s_dbal x ++ o_bal t; o_sup := s_dsup x ++ o_sup t; o_allow := s_dallow x ++ o_allow t |} in
       if out_eqb o (s_out x) && (negb (s_check x) || state_agrees c s' t')
       then first_bad c e s' t' (S i) r
